@@ -196,11 +196,15 @@ def typestate(repo, chk):
     calls = [c for c in ast.walk(fi.node) if isinstance(c, ast.Call) and (call_name(c) or '').endswith('assign_lines_to_regions')]
     need(len(calls) >= 3, 'expected at least three assign_lines_to_regions call sites')
     pm = parents_map(fi.node)
-    flags = sorted({x.attr for n in cfg.nodes if n.kind == 'test' for x in ast.walk(n.ast)
+    # tests: of conditional statements, and of conditional expressions that choose between literal lists
+    tests = [n.ast for n in cfg.nodes if n.kind == 'test'] + [
+        n.ast.value.test for n in cfg.nodes if n.kind == 'stmt' and isinstance(n.ast, ast.Assign) and isinstance(n.ast.value, ast.IfExp)
+        and isinstance(n.ast.value.body, ast.List) and isinstance(n.ast.value.orelse, ast.List)]
+    flags = sorted({x.attr for t_ in tests for x in ast.walk(t_)
                     if isinstance(x, ast.Attribute) and isinstance(x.value, ast.Name) and x.value.id == 'self' and isinstance(x.ctx, ast.Load)
                     and _flag_eval(x, {x.attr: True}) is True})
-    flags = [f for f in flags if any(_flag_eval(n.ast, {g: True for g in flags}) is not None for n in cfg.nodes if n.kind == 'test' and any(
-        isinstance(x, ast.Attribute) and x.attr == f for x in ast.walk(n.ast)))]
+    flags = [f for f in flags if any(_flag_eval(t_, {g: True for g in flags}) is not None for t_ in tests if any(
+        isinstance(x, ast.Attribute) and x.attr == f for x in ast.walk(t_)))]
     need(0 < len(flags) <= 10, 'unexpected number of configuration flags: %s' % flags)
 
     def clears_lines_stmt(s):
@@ -300,6 +304,10 @@ def typestate(repo, chk):
                     new[t.id] = FRESH
                 elif isinstance(t, ast.Name) and isinstance(a.value, ast.List) and all(isinstance(e, ast.Constant) for e in a.value.elts):
                     new['len:' + t.id] = len(a.value.elts)
+                elif isinstance(t, ast.Name) and isinstance(a.value, ast.IfExp) and _flag_eval(a.value.test, env) is not None \
+                        and all(isinstance(x, ast.List) and all(isinstance(e, ast.Constant) for e in x.elts) for x in (a.value.body, a.value.orelse)):
+                    # the same choice written as a conditional expression over a configuration flag
+                    new['len:' + t.id] = len((a.value.body if _flag_eval(a.value.test, env) else a.value.orelse).elts)
                 elif isinstance(t, ast.Name) and src(a.value).endswith('.regions'):
                     new[t.id] = ALIAS
                 for c in [c for c in ast.walk(a.value) if any(c is k for k in calls)]:
